@@ -24,7 +24,7 @@ use std::collections::{BTreeMap, HashSet};
 use std::path::Path;
 
 pub const HEADER: &str = "From Coq Require Import List NArith ZArith String.\nFrom V Require Import Base.Util Base.Result Model.Registry Model.Settings Model.Subst Model.Builders Model.RngWords Model.ExampleRust Corr.RunTG Corr.RunC14.\nImport ListNotations. Open Scope string_scope.";
-pub const EVALS: [(&str, &str); 19] = [
+pub const EVALS: [(&str, &str); 21] = [
     ("known_F14", "known_F14"),
     ("known_F15", "known_F15"),
     ("hyp_ok", "hyp_ok"),
@@ -37,8 +37,10 @@ pub const EVALS: [(&str, &str); 19] = [
     ("hyp_in_class", "hyp_in_class"),
     ("hyp_total_hyps", "hyp_total_hyps"),
     ("hyp_compact_wrapped", "hyp_compact_wrapped"),
+    ("hyp_irb_accepts", "hyp_irb_accepts"),
     ("corr_example", "corr_example"),
     ("corr_settings", "corr_settings"),
+    ("corr_conforms_agree", "corr_conforms_agree"),
     ("prop_parses", "prop_parses"),
     ("prop_deterministic", "prop_deterministic"),
     ("prop_conforms", "prop_conforms"),
